@@ -39,6 +39,9 @@ func c02(env *core.Env, large bool) {
 		SmallReads:   true,
 	}
 	n := c.Range("nops", 10, 60)
+	if env.Tier == "thorough" {
+		n = c.Range("nops", 10, 120)
+	}
 	if large {
 		cfg.Repos = pickSome(c, "repos", repoNames, 4, 8)
 		cfg.Tags = tagNames
